@@ -84,7 +84,7 @@ def negatives_join(h):
     return names
 
 
-def both(v, pid, b, d, table, rep, focus, runs):
+def both(v, pid, b, d, table, rep, focus, runs, enum=None):
     """M2 cases and M1 random traces: drivers one after the other (they time real runs), TLC validations and the
     binding self-test side by side."""
     keys = sorted(table)
@@ -95,6 +95,14 @@ def both(v, pid, b, d, table, rep, focus, runs):
     p2 = os.path.join(d, "%s_traces_out.ndjson" % pid)
     vlib.run_driver(b, ["pool", "-out", p2, "-runs", str(runs), "-focus", focus], timeout=3000)
     rows_c, rows_t = vlib.read_ndjson(p1), vlib.read_ndjson(p2)
+    if enum:
+        # complete small parameter space of the startup constructors (driver: plEnumStartupConfs)
+        p3 = os.path.join(d, "%s_enum_out.ndjson" % pid)
+        vlib.run_driver(b, ["pool", "-out", p3, "-focus", enum], timeout=3000)
+        rows_e = vlib.read_ndjson(p3)
+        for r in rows_e:
+            r["run"] += 1000000
+        rows_t = rows_t + rows_e
     tag = pid.lower()
     with concurrent.futures.ThreadPoolExecutor(max_workers=3) as ex:
         f1 = ex.submit(validate_parallel, v, pid, rows_c, d, tag + "_cases")
@@ -163,28 +171,8 @@ def write_rows(path, rows):
             f.write(json.dumps(r, separators=(",", ":")) + "\n")
 
 
-FACTORY_DEFECT = "plugin type expected"
-
-
-def drop_failed_factory_runs(v, pid, rows):
-    """Runs in which the config-decoded schedule FACTORY failed on its second product (rps-per-instance with a
-    list profile; pluginconfig.parseConf deletes `type` from the caller's nested map: DESIGN 5 #19, C18's subject)
-    are not normal operation: instance creation failed, which C12 lists as a legitimate cut-short reason and C03
-    does not speak about.  They are reported under a fixed signature (a known finding) and left out of the
-    trace validation; every other run that ends with an error stays in and is a violation there."""
-    bad = {r["run"] for r in rows if r["ev"] == "end" and FACTORY_DEFECT in r["err"]}
-    for run in sorted(bad)[:1]:
-        conf = next(r for r in rows if r["ev"] == "conf" and r["run"] == run)
-        end = next(r for r in rows if r["ev"] == "end" and r["run"] == run)
-        v.violation("pool run failed: rps-per-instance schedule factory second product: plugin type expected",
-                    "Engine.Run returned %r: with rps-per-instance the 2nd instance cannot be created from a list "
-                    "profile decoded from a viper-shaped config [%s] (%d such runs)" % (end["err"][:300], conf["desc"], len(bad)))
-    return [r for r in rows if r["run"] not in bad], len(bad)
-
-
 def validate_parallel(v, pid, rows, d, tag, chunk_lines=60000, par=4):
     """Split at run boundaries into chunks, one TLC each, a few at a time."""
-    rows, _ = drop_failed_factory_runs(v, pid, rows)
     chunks, cur = [], []
     for run, rr in sorted(_run_rows(rows).items()):
         if cur and len(cur) + len(rr) > chunk_lines:
@@ -282,7 +270,7 @@ def sample_of(rows, run):
     conf = next(r for r in rows if r["ev"] == "conf" and r["run"] == run)
     evs = [r for r in rows if r["run"] == run and r["ev"] not in ("conf",)]
     end = evs[-1]
-    return {"conf": conf["desc"], "n": conf["n"], "t": conf["t"],
+    return {"conf": conf["desc"], "n_impl": conf["n_impl"], "t": conf["t"],
             "first_events": [[e["ev"], e.get("inst"), e.get("item"), e.get("n"), e.get("ok")] for e in evs[:10]],
             "end": {k: end.get(k) for k in ("created", "shots", "acquired", "request", "response", "inst_start",
                                              "inst_finish", "err")}}
